@@ -106,6 +106,7 @@ def run(ctx):
   rule_pair(ctx, bodies)
   rule_entry(ctx, bodies)
   rule_severity(ctx)
+  rule_highest(ctx)
   rule_mono(ctx)
   rule_writers(ctx)
   rule_registry(ctx)
@@ -115,8 +116,8 @@ def run(ctx):
   ctx.borrow(c01.rule_merge, "R-C16-MONO")
   ctx.expect("R-C16-ONCE", 24, "24 Check bodies")
   ctx.expect("R-C16-PAIR", 24, "24 Check bodies")
-  ctx.expect("R-C16-SEVERITY", 29 + 9, "29 registered classes + 9 README rows")
-  ctx.expect("R-C16-MONO", 9, "six clauses of SetTestResult/AttachInfo + three of AttachFactors")
+  ctx.expect("R-C16-SEVERITY", 29 + 9 + 1, "29 registered classes + 9 README rows + GetHighestSeverity")
+  ctx.expect("R-C16-MONO", 10, "six clauses of SetTestResult/AttachInfo + three of AttachFactors")
   ctx.expect("R-C16-REGISTRY", 5, "five registries")
 
 
@@ -698,23 +699,32 @@ def rule_mono(ctx):
         ok = False
         why.append("a path with an empty version does not record it")
   ctx.record(R, f.where, "version-stamp", ok, "; ".join(sorted(set(why))) or "paranoid_lib_version written iff empty, with version.__version__")
-  # (5) GetTestResult finds by name
-  g = repo.func("util", "GetTestResult")
-  wg = sym.Walker(repo, g)
-  wg.run()
-  ok = False
-  for e in wg.events:
-    if e.kind == "return" and e.node is not None and e.state.tags:
-      v = as_poly(e.data["value"])
-      for f_ in e.facts:
-        if f_[0] == "cmp" and f_[1] == "Eq":
-          if {repr(as_poly(f_[2])), repr(as_poly(f_[3]))} == {repr(sym.mk("attr", v, "test_name")), repr(P("param", g.params()[1]))}:
-            a = v.as_atom()
-            if a is not None and a.kind == "idx" and a.args[0] == sym.mk("attr", P("param", g.params()[0]), "test_results"):
-              ok = True
-  fallnone = any(e.kind == "return" and isinstance(e.data["value"], Const) and e.data["value"].v is None and not e.state.tags for e in wg.events)
-  ctx.record(R, g.where, "lookup-by-name", ok and fallnone, "returns the test_results element whose test_name equals the argument, else None"
-             if ok and fallnone else "GetTestResult does not return the entry matched by test_name (or no None fall-through)")
+  # (5) the two lookups find by exact name: every return is either the element whose name field equals the argument, or the constant None
+  for fname, coll, field in (("GetTestResult", "test_results", "test_name"), ("GetAttachedInfo", "attached_info", "info_name")):
+    g = repo.func("util", fname)
+    wg = sym.Walker(repo, g)
+    wg.run()
+    okm = False
+    bad = []
+    for kind, val, s_ in wg.terminals:
+      if kind != "return":
+        continue
+      if isinstance(val, Const) and val.v is None:
+        continue
+      if isinstance(val, (Seq, tuple)) or val is None:
+        bad.append("returns %r" % (val,))
+        continue
+      v = as_poly(val)
+      a = v.as_atom()
+      matched = any(f_[0] == "cmp" and f_[1] == "Eq" and not isinstance(f_[2], (Seq, tuple)) and not isinstance(f_[3], (Seq, tuple)) and
+                    {repr(as_poly(f_[2])), repr(as_poly(f_[3]))} == {repr(sym.mk("attr", v, field)), repr(P("param", g.params()[1]))} for f_ in s_.facts)
+      if a is not None and a.kind == "idx" and a.args[0] == sym.mk("attr", P("param", g.params()[0]), coll) and matched:
+        okm = True
+      else:
+        bad.append("a return hands back %s without having matched its %s (a leftover / differently named element instead of None)" % (repr(v)[:60], field))
+    fallnone = any(kind == "return" and isinstance(val, Const) and val.v is None for kind, val, s_ in wg.terminals)
+    ctx.record(R, g.where, "lookup-by-name", okm and fallnone and not bad, "returns the %s element whose %s equals the argument, else None" % (coll, field)
+               if okm and fallnone and not bad else "; ".join(sorted(set(bad))) or "%s does not return the entry matched by %s (or no None fall-through)" % (fname, field))
   # (6) AttachInfo overwrites only the same-named record
   a = repo.func("util", "AttachInfo")
   wa = sym.Walker(repo, a)
@@ -745,7 +755,67 @@ def rule_mono(ctx):
   if not sets:
     ok = False
     why.append("no writes found")
+  # both outcomes of the lookup write the value: an existing record is updated (re-running with new evidence must not keep the old value), a missing one is added
+  upd_ = [e for e in sets if e.data["attr"] == "value" and as_poly(e.data["base"]).as_atom() is not None and as_poly(e.data["base"]).as_atom().kind == "call"]
+  new_ = [e for e in sets if e.data["attr"] == "value" and as_poly(e.data["base"]).as_atom() is not None and as_poly(e.data["base"]).as_atom().kind == "mcall"]
+  if sets and not upd_:
+    ok = False
+    why.append("an existing record is not updated: the value attached later (merged factors, new evidence) is dropped")
+  if sets and not new_:
+    ok = False
+    why.append("no record is added when none exists")
   ctx.record(R, a.where, "attach-info", ok, "; ".join(sorted(set(why))) or "updates the same-named record or adds a new one named info_name")
+
+
+def rule_highest(ctx):
+  """GetHighestSeverity: the maximum severity over the entries with a positive result (None without one) - decided on the accumulation loop."""
+  R = "R-C16-SEVERITY"
+  repo = ctx.repo
+  f = repo.func("util", "GetHighestSeverity")
+  w = sym.Walker(repo, f)
+  w.run()
+  ti = P("param", f.params()[0])
+  loops = [i_ for i_ in w.loop_info.values() if i_["visits"]]
+  probs = []
+  if len(loops) != 1 or not isinstance(loops[0]["visits"][0]["iter"], Poly) or loops[0]["visits"][0]["iter"] != sym.mk("attr", ti, "test_results"):
+    ctx.violation(R, f.where, "highest severity among the positive entries", "no single loop over test_info.test_results")
+    return
+  info = loops[0]
+  vis = info["visits"][0]
+  el = sym.mk("idx", sym.mk("attr", ti, "test_results"), as_poly(vis["k"]))
+  sev, res = sym.mk("attr", el, "severity"), sym.mk("attr", el, "result")
+  acc = [nm for nm in info["modified"] if isinstance(vis["head"].env.get(nm), Poly) and vis["head"].env[nm].as_atom() is not None and vis["head"].env[nm].as_atom().kind == "sym"
+         and nm in vis["pre_env"] and vis["pre_env"][nm] is not None]
+  if len(acc) != 1:
+    ctx.violation(R, f.where, "highest severity among the positive entries", "no single running maximum")
+    return
+  H = vis["head"].env[acc[0]]
+  took = False
+  for kind, val, s_, since, v_ in info["body_paths"]:
+    if kind not in ("fall", "continue"):
+      probs.append("loop left by %s" % kind)
+      continue
+    newf = s_.facts[len(vis["head"].facts):]
+    end = s_.env.get(acc[0])
+    pos = any(fc[0] == "truthy" and isinstance(fc[1], Poly) and fc[1] == res for fc in newf)
+    gt = any(fc[0] == "cmp" and ((fc[1] == "Gt" and as_poly(fc[2]) == sev and as_poly(fc[3]) == H) or (fc[1] == "Lt" and as_poly(fc[3]) == sev and as_poly(fc[2]) == H)) for fc in newf)
+    if isinstance(end, Poly) and end == H:
+      if pos and gt:
+        probs.append("a positive entry with a higher severity does not raise the maximum")
+      continue
+    took = True
+    if not (isinstance(end, Poly) and end == sev):
+      probs.append("the running maximum is replaced by something other than the entry's severity")
+    if not pos:
+      probs.append("the maximum is raised by an entry whose own result is not positive (passed checks count)")
+    if not gt:
+      probs.append("the maximum is replaced without comparing severities")
+  if not took:
+    probs.append("the maximum is never raised")
+  start = vis["pre_env"].get(acc[0])
+  rets = [t_ for t_ in w.terminals if t_[0] == "return"]
+  ctx.record(R, f.where, "highest severity among the positive entries", not probs, "; ".join(sorted(set(probs))) or
+             "max over entries with result set, of their severity (start %r)" % (start,))
 
 
 def _truth_eval(node, env):
